@@ -135,6 +135,13 @@ func accumulator(c *mon.Ctx, cfg hcfg, N int, rng *gen.Rng) {
 			flat0 := append([]byte(nil), flat...)
 			for k := 0; k < n; k++ {
 				t.Push(lv[k])
+				if k == n/2 && (i+n)%3 == 0 {
+					// SetIndex on a tree that already holds leaves is refused (documented) - and changes nothing
+					other := uint64((i + 1) % n)
+					if err := t.SetIndex(other); err == nil {
+						c.Fail(L+"/SetIndex/accepted-on-non-empty-tree", "n=%d i=%d: SetIndex(%d) after %d pushes returned nil", n, i, other, k+1)
+					}
+				}
 				if (i+k)%5 == 0 {
 					r := t.Root()
 					c.Check("Root", L+"/Root/intermediate-mismatch", bytes.Equal(r, m.mth(0, k+1)), func() string {
@@ -201,6 +208,22 @@ func accumulator(c *mon.Ctx, cfg hcfg, N int, rng *gen.Rng) {
 					kind = "leaf-flip"
 				}
 				rej(kind, wantRoot, s, uint64(i))
+			}
+			if cfg.label != "sha256" && (n <= 8 || i == n/2) {
+				// a component followed by a block the hash refuses (a hash that stops at the refused block has absorbed
+				// the honest prefix): the changed component must not verify, and must not panic
+				for e := 0; e < len(ps); e++ {
+					s := cloneSet(ps)
+					s[e] = append(append([]byte(nil), s[e]...), bytes.Repeat([]byte{0xff}, len(ps[e]))...)
+					var ok bool
+					kind := "sibling-extended-by-refused-block"
+					if e == 0 {
+						kind = "leaf-extended-by-refused-block"
+					}
+					if !c.Guard(L+"/Verify/panic/"+kind, func() string { return fmt.Sprintf("n=%d i=%d component %d", n, i, e) }, func() { ok = merkletree.VerifyProof(vh, wantRoot, s, uint64(i), uint64(n)) }) {
+						c.Check("VerifyProof/tamper", L+"/Verify/accepted-tampered/"+kind, !ok, func() string { return fmt.Sprintf("n=%d i=%d component %d", n, i, e) })
+					}
+				}
 			}
 			if cfg.label != "sha256" && n <= 6 && len(ps) > 1 {
 				// a sibling that is not a canonical field element: the verifier must reject it, not panic
@@ -389,7 +412,13 @@ func decompositions(c *mon.Ctx, cfg hcfg, rng *gen.Rng) {
 	// including the very first element pushed
 	runPlain := func(n int, m *mdl, d []piece, kind string) {
 		t := merkletree.New(h)
-		for _, p := range d {
+		for pi, p := range d {
+			if pi == 1 && n%2 == 0 {
+				// a refused SetIndex (the tree is not empty) must not turn the root-only tree into a proof tree
+				if err := t.SetIndex(uint64(p.lo)); err == nil {
+					c.Fail(L+"/SetIndex/accepted-on-non-empty-tree", "n=%d: SetIndex(%d) after the first piece returned nil", n, p.lo)
+				}
+			}
 			if p.cached {
 				if err := t.PushSubTree(log2(p.hi-p.lo), m.mth(p.lo, p.hi)); err != nil {
 					c.Fail(L+"/PushSubTree/error/root-only-tree", "n=%d piece=%v err=%v decomposition=%v", n, p, err, d)
